@@ -156,6 +156,15 @@ def oracle(ctx, extra):
     n = 0
     seen = set()
     P = gen_docs.ALL_PLUGINS
+    # corner documents compared on every run (the sampled ones meet them only now and then): a line between two lines of text that
+    # holds nothing but one kind of wide, zero-width or control white space - what counts as a blank line is the block parser's
+    # business, with or without the fast paragraph rule
+    for ws in gen_docs.EDGE_WS + [" ", "\t", "  \t ", "\x0b\x0c", "\u200b\u2060\ufeff", "\x00", "\x7f"]:
+        for doc in ["First line\n%s\nSecond line\n" % ws, "a\n%s\n%s\nb\n\n> q\n> %s\n> r\n" % (ws, ws, ws), "- i\n%s\n- j\n\nx %s\ny\n%s z\n" % (ws, ws, ws)]:
+            for plugins, hw in (([], False), (["strikethrough", "footnotes", "table"], True)):
+                if check_one(m, {"input": doc, "plugins": plugins, "hard_wrap": hw, "escape": True}, fails):
+                    n += 1
+                    seen.add(doc)
     for i in range(ctx.n(4000, 100000)):
         k = r.random()
         if extra and i < len(extra) and isinstance(extra[i], str):
